@@ -689,6 +689,7 @@ type AbacoSource struct {
 	readPeriod   time.Duration
 	buffersChan  chan AbacoBuffersType
 	eTrigPackets []*packets.Packet // Unprocessed packets with external trigger info
+	frameLock    sync.Mutex        // guards nextFrameNum, eTrigPackets and the groups' frame timing: the reader loop and block assembly share them
 
 	unwrapOpts AbacoUnwrapOptions
 	AnySource
@@ -816,6 +817,8 @@ func (as *AbacoSource) Configure(config *AbacoSourceConfig) (err error) {
 
 // distributePackets sorts a slice of Abaco packets into the data queues according to the GroupIndex.
 func (as *AbacoSource) distributePackets(allpackets []*packets.Packet, now time.Time) {
+	as.frameLock.Lock()
+	defer as.frameLock.Unlock()
 	for _, p := range allpackets {
 		if p.IsExternalTrigger() {
 			as.eTrigPackets = append(as.eTrigPackets, p)
@@ -1202,8 +1205,13 @@ func (as *AbacoSource) distributeData(buffersMsg AbacoBuffersType) *dataBlock {
 	nchan := len(datacopies)
 	block.segments = make([]DataSegment, nchan)
 
-	// Here we find external triggers from the queue of relevant packets
+	// Here we find external triggers from the queue of relevant packets, and number this block's frames.
+	// The reader loop (distributePackets) uses the same state concurrently.
+	as.frameLock.Lock()
 	externalTriggers := as.extractExternalTriggers()
+	firstFrame := as.nextFrameNum
+	as.nextFrameNum += FrameIndex(framesUsed)
+	as.frameLock.Unlock()
 
 	// TODO: we should loop over devices here, matching devices to channels.
 	var wg sync.WaitGroup
@@ -1216,7 +1224,7 @@ func (as *AbacoSource) distributeData(buffersMsg AbacoBuffersType) *dataBlock {
 				rawData:         data,
 				framesPerSample: 1, // This will be changed later if decimating
 				framePeriod:     as.samplePeriod,
-				firstFrameIndex: as.nextFrameNum,
+				firstFrameIndex: firstFrame,
 				firstTime:       firstTime,
 				signed:          true,
 				droppedFrames:   buffersMsg.droppedFrames,
@@ -1226,7 +1234,6 @@ func (as *AbacoSource) distributeData(buffersMsg AbacoBuffersType) *dataBlock {
 	}
 	wg.Wait()
 	block.nSamp = framesUsed // every channel's data has this length; set once, not by every channel's goroutine
-	as.nextFrameNum += FrameIndex(framesUsed)
 	if as.heartbeats != nil {
 		pmb := float64(buffersMsg.totalBytes) / 1e6
 		hwmb := float64(buffersMsg.totalBytes-buffersMsg.droppedBytes) / 1e6
